@@ -271,7 +271,7 @@ def _small_secp(rep, p, b, N, part):
     sp = mod(SP)
     ref = mod("py_ecc.bn128.bn128_curve")
     fe = mod("py_ecc.fields.field_elements")
-    W = 24
+    W = (12 * (p - 1) ** 4).bit_length() + 2      # largest intermediate of the Jacobian formulas before its % P (e.g. p[1] * q[2] ** 3, 8 * ysq ** 2)
     pts = [(x, y) for x in range(p) for y in range(p) if (y * y - x * x * x - b) % p == 0]
     rp = {"kind": "c18_small", "args": {"p": p, "b": b, "N": N}}
     require(rep, len(pts) + 1 == N and all(N % d for d in range(2, N)), "ground: y^2 = x^3 + %d over GF(%d) has prime order %d" % (b, p, N), None, rp)
@@ -290,7 +290,7 @@ def _small_secp(rep, p, b, N, part):
 
     def pt(ctx, nm, allow_identity=True):
         x, y = SymZ.var("x" + nm, 0, p - 1), SymZ.var("y" + nm, 0, p - 1)
-        on = z3.URem(y.t * y.t, bv(p)) == z3.URem(x.t * x.t * x.t + b, bv(p))
+        on = z3.URem(y.t * y.t, bv(p)) == z3.URem(z3.URem(z3.URem(x.t * x.t, bv(p)) * x.t, bv(p)) + b, bv(p))
         ctx.assume(z3.Or(on, z3.And(x.t == 0, y.t == 0)) if allow_identity else on)
         return (x, y)
 
@@ -360,13 +360,16 @@ def _small_secp(rep, p, b, N, part):
         with world.patched(sp, **consts):
             M0 = sp.multiply(A, n)
             M1 = sp.multiply(A, n + 1)
+        return [("multiply(P, n + 1) = multiply(P, n) + P for EVERY n in [-N-2, 2N+2] and every point", same(M1, oracle_add(ctx, M0, A)))]
+
+    def run_mul_base(ctx):
+        A = pt(ctx, "1")
+        with world.patched(sp, **consts):
             Z = sp.multiply(A, 0)
             One = sp.multiply(A, 1)
-            MN = sp.multiply(A, n + N)
-        return [("multiply(P, n + 1) = multiply(P, n) + P for EVERY n in [-N-2, 2N+2] and every point", same(M1, oracle_add(ctx, M0, A))),
-                ("multiply(P, 0) = (0, 0)", same(Z, (SymZ.const(0), SymZ.const(0)))), ("multiply(P, 1) = P", same(One, A)),
-                ("multiply(P, n + N) = multiply(P, n)", same(MN, M0))]
+        return [("multiply(P, 0) = (0, 0)", same(Z, (SymZ.const(0), SymZ.const(0)))), ("multiply(P, 1) = P", same(One, A))]
     if part == "multiply":
+        core.explore(run_mul_base, ctx_kwargs=kw, on_path=lambda pth: finish(pth, "multiply base cases"), max_paths=100)
         core.explore(run_mul, ctx_kwargs=kw, on_path=lambda pth: finish(pth, "multiply"), max_paths=6000)
     rep.stub("inv(a, p) -> fresh v with a*v == 1 (mod p), inv(0) = 0 (contract: inv_small_and_loop_step)")
     rep.stub("oracle: reference bn128_curve.add over the same small field (C07 small_curve_all_triples decides its group axioms)")
@@ -380,7 +383,7 @@ for _p, _b, _N in SMALL_PRIME_ORDER:
                 rep.encoded(sp.add, sp.multiply, sp.jacobian_add, sp.jacobian_double, sp.jacobian_multiply, sp.from_jacobian, sp.to_jacobian)
                 _small_secp(rep, p, b, N, part)
             return f
-        obligation("C18", "small_prime_order_curve_p%d_%s" % (_p, _part), tier="thorough", timeout=3000,
-                   bound="module constants P, N, A, B, G rebound to y^2 = x^3 + %d over GF(%d) (prime order %d): %s; exact 24-bit vectors with no-wrap side conditions"
+        obligation("C18", "small_prime_order_curve_p%d_%s" % (_p, _part), tier=("quick" if _part == "add" else "thorough"), timeout=3000,
+                   bound="module constants P, N, A, B, G rebound to y^2 = x^3 + %d over GF(%d) (prime order %d): %s; exact bit-vectors (16 resp. 20 bits) with no-wrap side conditions"
                    % (_b, _p, _N, {"add": "add on EVERY pair of points incl. identity", "jacobian": "jacobian_add / jacobian_double on every pair and EVERY Jacobian representative",
-                                   "multiply": "multiply for every point and EVERY scalar in [-N-2, 2N+2] (recurrence, base cases, period N)"}[_part]))(_mk_sm())
+                                   "multiply": "multiply for every point and EVERY scalar in [-N-2, 2N+3] (base cases 0, 1 and the recurrence (n+1)P = nP + P, which fixes the value for every n in the range)"}[_part]))(_mk_sm())
